@@ -932,53 +932,440 @@ Proof.
   cbn [le_N]. unfold byte_of_Z. rewrite to_N_byte_of_N by lia. rewrite N.mul_0_r, N.add_0_r, Z2N.id by lia. reflexivity.
 Qed.
 
-(* --- UNICODE on text that needs no escaping --- *)
-Definition safe_byte (b : byte) : bool :=
-  let n := Byte.to_N b in ((32 <=? n) && (n <=? 127) && negb (n =? 92))%N.
+(* ================= repaired encoders (D13) ================= *)
+Ltac Zify.zify_post_hook ::= Z.to_euclidean_division_equations.
 
-Lemma raw_escape_safe s : forallb safe_byte s = true -> flat_map raw_escape_byte s = s.
+Ltac nlt :=
+  repeat match goal with
+         | |- context[(?a <? ?b)%N] => destruct (N.ltb_spec a b); try lia
+         | |- context[(?a =? ?b)%N] => destruct (N.eqb_spec a b); try lia
+         | |- context[(?a <=? ?b)%N] => destruct (N.leb_spec a b); try lia
+         end.
+
+Lemma byte_eq_of_N b n : Byte.to_N b = n -> b = byte_of_N n.
+Proof. intros <-. symmetry. apply byte_of_N_to_N. Qed.
+
+Lemma cont_bits_spec c x : cont_bits c = Some x -> (128 <= Byte.to_N c < 192 /\ x = Byte.to_N c - 128)%N.
 Proof.
-  induction s; simpl; intros H; auto. apply andb_true_iff in H as [H1 H2]. rewrite IHs by assumption.
-  unfold safe_byte in H1. apply andb_true_iff in H1 as [H1 H3]. apply andb_true_iff in H1 as [H0 H1].
-  apply N.leb_le in H0, H1. unfold raw_escape_byte.
-  replace ((32 <=? to_N a) && (to_N a <=? 128))%N with true by (symmetry; apply andb_true_iff; split; apply N.leb_le; lia).
-  replace (to_N a =? 128)%N with false by (symmetry; apply N.eqb_neq; lia). reflexivity.
+  unfold cont_bits. destruct ((128 <=? to_N c) && (to_N c <? 192))%N eqn:E; [| discriminate].
+  intros [= <-]. apply andb_true_iff in E as [E1 E2]. apply N.leb_le in E1. apply N.ltb_lt in E2. lia.
 Qed.
 
-Lemma safe_not_nl s : forallb safe_byte s = true -> Forall not_nl s.
+(* --- UTF-8: decoding one code point is inverted by utf8_cp --- *)
+Lemma utf8_next_inv s cp r :
+  utf8_next s = Some (cp, r) ->
+  s = utf8_cp cp ++ r /\ (cp <= 1114111)%N /\ (List.length r < List.length s)%nat.
 Proof.
-  induction s; simpl; intros H; constructor.
-  - apply andb_true_iff in H as [H _]. unfold safe_byte in H. intros ->. vm_compute in H. discriminate.
-  - apply IHs. apply andb_true_iff in H as [_ H]. assumption.
+  destruct s as [|b s1]; [discriminate |]. cbn [utf8_next].
+  pose proof (Byte.to_N_bounded b) as Bb. remember (Byte.to_N b) as n eqn:En.
+  destruct (N.ltb_spec n 128).
+  { intros [= <- <-]. repeat split; [| lia | simpl; lia]. unfold utf8_cp. nlt. cbn [List.app].
+    f_equal. apply byte_eq_of_N. auto. }
+  destruct (N.ltb_spec n 192); [discriminate |].
+  destruct (N.ltb_spec n 224).
+  { destruct s1 as [|c1 r1]; [discriminate |].
+    destruct (cont_bits c1) as [x|] eqn:C1; [| discriminate]. apply cont_bits_spec in C1 as [C1 ->].
+    destruct (N.ltb_spec ((n - 192) * 64 + (to_N c1 - 128)) 128); [discriminate |].
+    intros [= <- <-]. repeat split; [| lia | simpl; lia]. unfold utf8_cp. nlt. cbn [List.app].
+    f_equal; [| f_equal]; apply byte_eq_of_N; rewrite <- ?En; clear En; lia. }
+  destruct (N.ltb_spec n 240).
+  { destruct s1 as [|c1 [|c2 r2]]; try discriminate.
+    destruct (cont_bits c1) as [x|] eqn:C1; [| discriminate]. apply cont_bits_spec in C1 as [C1 ->].
+    destruct (cont_bits c2) as [y|] eqn:C2; [| discriminate]. apply cont_bits_spec in C2 as [C2 ->].
+    destruct (N.ltb_spec ((n - 224) * 4096 + (to_N c1 - 128) * 64 + (to_N c2 - 128)) 2048); [discriminate |].
+    intros [= <- <-]. repeat split; [| lia | simpl; lia]. unfold utf8_cp. nlt. cbn [List.app].
+    f_equal; [| f_equal; [| f_equal]]; apply byte_eq_of_N; rewrite <- ?En; clear En; lia. }
+  destruct (N.ltb_spec n 248); [| discriminate].
+  destruct s1 as [|c1 [|c2 [|c3 r3]]]; try discriminate.
+  destruct (cont_bits c1) as [x|] eqn:C1; [| discriminate]. apply cont_bits_spec in C1 as [C1 ->].
+  destruct (cont_bits c2) as [y|] eqn:C2; [| discriminate]. apply cont_bits_spec in C2 as [C2 ->].
+  destruct (cont_bits c3) as [z|] eqn:C3; [| discriminate]. apply cont_bits_spec in C3 as [C3 ->].
+  set (cp0 := ((n - 240) * 262144 + (to_N c1 - 128) * 4096 + (to_N c2 - 128) * 64 + (to_N c3 - 128))%N).
+  destruct (N.ltb_spec cp0 65536); [discriminate |].
+  destruct (N.ltb_spec 1114111 cp0); [discriminate |]. cbn [orb].
+  intros [= <- <-]. repeat split; [| lia | simpl; lia]. unfold utf8_cp. nlt. cbn [List.app].
+  f_equal; [| f_equal; [| f_equal; [| f_equal]]]; apply byte_eq_of_N; rewrite <- ?En; clear En; unfold cp0; lia.
 Qed.
 
-Lemma raw_unescape_safe s : forall fuel, forallb safe_byte s = true -> (List.length s < fuel)%nat ->
-  raw_unescape fuel s false = COk s.
+Lemma utf8_decode_f_inv fuel : forall s cps, utf8_decode_f fuel s = Some cps ->
+  flat_map utf8_cp cps = s /\ Forall (fun n => (n <= 1114111)%N) cps /\ (List.length cps <= List.length s)%nat.
 Proof.
-  induction s; intros fuel H L; destruct fuel; simpl in *; try lia; auto.
-  apply andb_true_iff in H as [H1 H2].
-  assert (Hb : Byte.eqb a x5c = false).
-  { destruct (Byte.eqb a x5c) eqn:E; auto. apply Byte.byte_dec_bl in E. subst a. vm_compute in H1. discriminate. }
-  rewrite Hb. rewrite IHs by (auto; lia). cbn.
-  unfold safe_byte in H1. apply andb_true_iff in H1 as [H1 _]. apply andb_true_iff in H1 as [_ H1].
-  apply N.leb_le in H1. unfold utf8_cp.
-  replace (to_N a <? 128)%N with true by (symmetry; apply N.ltb_lt; lia).
-  rewrite byte_of_N_to_N. reflexivity.
+  induction fuel; intros s cps H; destruct s as [|b s1]; cbn [utf8_decode_f] in H;
+    try (inversion H; subst; simpl; auto; fail); try discriminate.
+  destruct (utf8_next (b :: s1)) as [[cp r]|] eqn:E; [| discriminate].
+  destruct (utf8_decode_f fuel r) as [t|] eqn:D; [| discriminate]. inversion H; subst; clear H.
+  apply utf8_next_inv in E as [E1 [E2 E3]]. apply IHfuel in D as [D1 [D2 D3]].
+  split; [| split].
+  - cbn [flat_map]. rewrite D1. symmetry. exact E1.
+  - constructor; assumption.
+  - simpl in *. lia.
 Qed.
 
-Lemma unicode_safe_back c s bs : find_class "Unicode" = Some c -> forallb safe_byte s = true ->
-  encode c (PBytes s) = COk bs -> reads_back c (PBytes s) bs.
+Lemma utf8_decode_inv s cps : utf8_decode s = Some cps ->
+  flat_map utf8_cp cps = s /\ Forall (fun n => (n <= 1114111)%N) cps /\ (List.length cps <= List.length s)%nat.
+Proof. apply utf8_decode_f_inv. Qed.
+
+(* --- Latin-1 --- *)
+Lemma latin1_roundtrip s l : latin1_of_utf8 s = Some l ->
+  latin1_to_utf8 l = s /\ (List.length l <= List.length s)%nat.
 Proof.
-  intros H Hs E. open_class H. cbn -[raw_unicode_escape] in E. apply COk_inj in E; subst.
-  exists (GText s). split; [| cbn; apply bytes_eqb_refl].
-  unfold raw_unicode_escape. rewrite raw_escape_safe by assumption.
+  unfold latin1_of_utf8. destruct (utf8_decode s) as [cps|] eqn:D; [| discriminate].
+  destruct (forallb (fun n => (n <? 256)%N) cps) eqn:F; [| discriminate]. intros [= <-].
+  apply utf8_decode_inv in D as [D1 [_ D3]]. split; [| rewrite map_length; assumption].
+  rewrite <- D1. unfold latin1_to_utf8. clear D1 D3.
+  induction cps; simpl in *; auto. apply andb_true_iff in F as [F1 F2]. apply N.ltb_lt in F1.
+  rewrite to_N_byte_of_N by assumption. rewrite IHcps by assumption. reflexivity.
+Qed.
+
+(* --- hexadecimal digits --- *)
+Lemma hexv_hexd d : (d < 16)%N -> hexv (hexd d) = Some d.
+Proof.
+  intros H.
+  assert (T : forallb (fun d => match hexv (hexd d) with Some x => N.eqb x d | None => false end)
+                      (map N.of_nat (seq 0 16)) = true) by (vm_compute; reflexivity).
+  rewrite forallb_forall in T. specialize (T d).
+  assert (I : In d (map N.of_nat (seq 0 16))).
+  { apply in_map_iff. exists (N.to_nat d). split; [apply N2Nat.id | apply in_seq; lia]. }
+  specialize (T I). destruct (hexv (hexd d)); [| discriminate]. apply N.eqb_eq in T. subst. reflexivity.
+Qed.
+
+Lemma hexd_not_special d : (d < 16)%N -> hexd d <> nl /\ hexd d <> x5c.
+Proof.
+  intros H.
+  assert (T : forallb (fun d => negb (Byte.eqb (hexd d) nl) && negb (Byte.eqb (hexd d) x5c))
+                      (map N.of_nat (seq 0 16)) = true) by (vm_compute; reflexivity).
+  rewrite forallb_forall in T. specialize (T d).
+  assert (I : In d (map N.of_nat (seq 0 16))).
+  { apply in_map_iff. exists (N.to_nat d). split; [apply N2Nat.id | apply in_seq; lia]. }
+  specialize (T I). apply andb_true_iff in T as [T1 T2]. apply negb_true_iff in T1, T2.
+  split; intros E; rewrite E in *; vm_compute in T1, T2; discriminate.
+Qed.
+
+Lemma byte_eqb_refl b : Byte.eqb b b = true.
+Proof. apply Byte.byte_dec_lb. reflexivity. Qed.
+
+Lemma byte_eqb_neq a b : a <> b -> Byte.eqb a b = false.
+Proof. intros H. destruct (Byte.eqb a b) eqn:E; auto. apply Byte.byte_dec_bl in E. contradiction. Qed.
+
+Lemma byte_of_N_inj_neq n m : (n < 256)%N -> (m < 256)%N -> n <> m -> byte_of_N n <> byte_of_N m.
+Proof. intros Hn Hm H E. apply H. rewrite <- (to_N_byte_of_N n), <- (to_N_byte_of_N m) by assumption. rewrite E. reflexivity. Qed.
+
+(* --- raw-unicode-escape --- *)
+Lemma raw_unescape_u f h1 h2 h3 h4 R a b c d :
+  hexv h1 = Some a -> hexv h2 = Some b -> hexv h3 = Some c -> hexv h4 = Some d ->
+  raw_unescape (S f) (x5c :: x75 :: h1 :: h2 :: h3 :: h4 :: R) false =
+  doc t <- raw_unescape f R false; COk (utf8_cp (a * 4096 + b * 256 + c * 16 + d)%N ++ t).
+Proof. intros H1 H2 H3 H4. cbn -[utf8_cp N.mul N.add hexv]. rewrite H1, H2, H3, H4. reflexivity. Qed.
+
+Lemma raw_unescape_U f h1 h2 h3 h4 h5 h6 h7 h8 R a1 a2 a3 a4 a5 a6 a7 a8 :
+  hexv h1 = Some a1 -> hexv h2 = Some a2 -> hexv h3 = Some a3 -> hexv h4 = Some a4 ->
+  hexv h5 = Some a5 -> hexv h6 = Some a6 -> hexv h7 = Some a7 -> hexv h8 = Some a8 ->
+  raw_unescape (S f) (x5c :: x55 :: h1 :: h2 :: h3 :: h4 :: h5 :: h6 :: h7 :: h8 :: R) false =
+  let cp := ((a1 * 4096 + a2 * 256 + a3 * 16 + a4) * 65536 + (a5 * 4096 + a6 * 256 + a7 * 16 + a8))%N in
+  if (1114111 <? cp)%N then CErr XUnpickling
+  else doc t <- raw_unescape f R false; COk (utf8_cp cp ++ t).
+Proof.
+  intros H1 H2 H3 H4 H5 H6 H7 H8. cbn -[utf8_cp N.mul N.add N.ltb hexv].
+  rewrite H1, H2, H3, H4, H5, H6, H7, H8. reflexivity.
+Qed.
+
+Lemma raw_unescape_plain f b R : b <> x5c ->
+  raw_unescape (S f) (b :: R) false = doc t <- raw_unescape f R false; COk (utf8_cp (Byte.to_N b) ++ t).
+Proof. intros H. cbn [raw_unescape]. rewrite (byte_eqb_neq _ _ H). reflexivity. Qed.
+
+Lemma hex4_digits n : (n < 65536)%N ->
+  hexv (hexd ((n / 4096) mod 16)) = Some ((n / 4096) mod 16)%N /\
+  hexv (hexd ((n / 256) mod 16)) = Some ((n / 256) mod 16)%N /\
+  hexv (hexd ((n / 16) mod 16)) = Some ((n / 16) mod 16)%N /\
+  hexv (hexd (n mod 16)) = Some (n mod 16)%N /\
+  ((n / 4096) mod 16 * 4096 + (n / 256) mod 16 * 256 + (n / 16) mod 16 * 16 + n mod 16 = n)%N.
+Proof. intros H. repeat split; try (apply hexv_hexd; apply N.mod_lt; lia). lia. Qed.
+
+Lemma esc_cp_length cp : (1 <= List.length (esc_cp cp))%nat.
+Proof. unfold esc_cp. repeat match goal with |- context[if ?b then _ else _] => destruct b end; simpl; lia. Qed.
+
+Lemma raw_unescape_cp f cp R : (cp <= 1114111)%N ->
+  raw_unescape (S f) (esc_cp cp ++ R) false = doc t <- raw_unescape f R false; COk (utf8_cp cp ++ t).
+Proof.
+  intros H. unfold esc_cp.
+  destruct ((cp =? 92) || (cp =? 0) || (cp =? 10) || (cp =? 13) || (cp =? 26))%N eqn:S1.
+  { assert (L : (cp < 65536)%N).
+    { repeat (apply orb_true_iff in S1 as [S1|S1]); apply N.eqb_eq in S1; lia. }
+    destruct (hex4_digits cp L) as [D1 [D2 [D3 [D4 D5]]]].
+    unfold hex4. cbn [List.app]. rewrite (raw_unescape_u _ _ _ _ _ _ _ _ _ _ D1 D2 D3 D4), D5. reflexivity. }
+  repeat (apply orb_false_iff in S1 as [S1 ?]).
+  destruct (N.ltb_spec cp 256).
+  { cbn [List.app]. rewrite raw_unescape_plain.
+    - rewrite to_N_byte_of_N by assumption. reflexivity.
+    - change x5c with (byte_of_N 92). apply byte_of_N_inj_neq; try lia. apply N.eqb_neq. assumption. }
+  destruct (N.ltb_spec cp 65536).
+  { destruct (hex4_digits cp H5) as [D1 [D2 [D3 [D4 D5]]]].
+    unfold hex4. cbn [List.app]. rewrite (raw_unescape_u _ _ _ _ _ _ _ _ _ _ D1 D2 D3 D4), D5. reflexivity. }
+  assert (L1 : (cp / 65536 < 65536)%N) by lia.
+  assert (L2 : (cp mod 65536 < 65536)%N) by (apply N.mod_lt; lia).
+  destruct (hex4_digits _ L1) as [D1 [D2 [D3 [D4 D5]]]].
+  destruct (hex4_digits _ L2) as [E1 [E2 [E3 [E4 E5]]]].
+  unfold hex4. cbn [List.app].
+  rewrite (raw_unescape_U _ _ _ _ _ _ _ _ _ _ _ _ _ _ _ _ _ _ D1 D2 D3 D4 E1 E2 E3 E4).
+  cbv zeta. rewrite D5, E5.
+  replace (cp / 65536 * 65536 + cp mod 65536)%N with cp by lia.
+  destruct (N.ltb_spec 1114111 cp); [lia | reflexivity].
+Qed.
+
+Lemma raw_unescape_all cps : forall fuel, Forall (fun n => (n <= 1114111)%N) cps ->
+  (List.length (flat_map esc_cp cps) < fuel)%nat ->
+  raw_unescape fuel (flat_map esc_cp cps) false = COk (flat_map utf8_cp cps).
+Proof.
+  induction cps as [|cp r IH]; intros fuel F L.
+  - destruct fuel; [simpl in L; lia | reflexivity].
+  - inversion F; subst. cbn [flat_map] in *. rewrite app_length in L.
+    pose proof (esc_cp_length cp). destruct fuel as [|f]; [lia |].
+    rewrite raw_unescape_cp by assumption. rewrite IH by (auto; lia). reflexivity.
+Qed.
+
+Lemma esc_cp_no_nl cp : (cp <= 1114111)%N -> Forall not_nl (esc_cp cp).
+Proof.
+  intros H.
+  assert (HX : forall d, (d < 16)%N -> not_nl (hexd d)) by (intros d Hd; apply hexd_not_special; assumption).
+  assert (H4 : forall n, Forall not_nl (hex4 n)).
+  { intros n. unfold hex4. repeat constructor; apply HX; apply N.mod_lt; lia. }
+  unfold esc_cp.
+  destruct ((cp =? 92) || (cp =? 0) || (cp =? 10) || (cp =? 13) || (cp =? 26))%N eqn:S1.
+  { constructor; [discriminate |]. constructor; [discriminate | apply H4]. }
+  repeat (apply orb_false_iff in S1 as [S1 ?]).
+  destruct (N.ltb_spec cp 256).
+  { constructor; [| constructor]. unfold not_nl. change nl with (byte_of_N 10).
+    apply byte_of_N_inj_neq; try lia. apply N.eqb_neq. assumption. }
+  destruct (N.ltb_spec cp 65536).
+  { constructor; [discriminate |]. constructor; [discriminate | apply H4]. }
+  constructor; [discriminate |]. constructor; [discriminate |]. apply Forall_app. split; apply H4.
+Qed.
+
+Lemma escape_no_nl cps : Forall (fun n => (n <= 1114111)%N) cps -> Forall not_nl (flat_map esc_cp cps).
+Proof.
+  induction 1; simpl; [constructor |]. apply Forall_app. split; [apply esc_cp_no_nl; assumption | assumption].
+Qed.
+
+Lemma tok_unicode cps rest : Forall (fun n => (n <= 1114111)%N) cps ->
+  genops1 (x56 :: raw_unicode_escape cps ++ rest) = COk (("UNICODE"%string, GText (flat_map utf8_cp cps)), rest).
+Proof.
+  intros F. unfold raw_unicode_escape. rewrite <- app_assoc. change ([nl] ++ rest) with (nl :: rest).
   erewrite genops1_unfold by (vm_compute; reflexivity).
   cbn -[read_line raw_unescape].
-  rewrite read_line_app by (apply safe_not_nl; assumption). cbn [cbind fst snd].
-  rewrite raw_unescape_safe by (auto; lia). reflexivity.
+  rewrite read_line_app by (apply escape_no_nl; assumption). cbn [cbind fst snd].
+  rewrite raw_unescape_all by (auto; lia). reflexivity.
 Qed.
 
-(* --- the classes whose encoder is wrong: witnesses --- *)
+Lemma unicode_back c a s bs : find_class "Unicode" = Some c -> (a = PBytes s \/ a = PStr s) ->
+  encode c a = COk bs -> reads_back c a bs.
+Proof.
+  intros H Ha E. open_class H.
+  assert (E' : match utf8_decode s with Some cps => COk (x56 :: raw_unicode_escape cps) | None => CErr XValue end = COk bs).
+  { destruct Ha as [-> | ->]; cbn -[raw_unicode_escape utf8_decode] in E;
+      destruct (utf8_decode s); cbn -[raw_unicode_escape] in E; exact E. }
+  clear E. destruct (utf8_decode s) as [cps|] eqn:D; [| discriminate]. apply COk_inj in E'; subst bs.
+  apply utf8_decode_inv in D as [D1 [D2 _]].
+  exists (GText s). split.
+  - apply genops1_nil_rest. rewrite <- app_comm_cons, tok_unicode by assumption. rewrite D1. reflexivity.
+  - destruct Ha as [-> | ->]; cbn; apply bytes_eqb_refl.
+Qed.
+
+(* --- STRING: repr() of ASCII text is undone by escape_decode --- *)
+Lemma unescape_plain b r : b <> x5c -> unescape (b :: r) = doc t <- unescape r; COk (b :: t).
+Proof. intros H. cbn [unescape]. rewrite (byte_eqb_neq _ _ H). reflexivity. Qed.
+
+Lemma unescape_repr_byte q b r : (q = x27 \/ q = x22) ->
+  unescape (repr_byte q b ++ r) = doc t <- unescape r; COk (b :: t).
+Proof.
+  intros Hq. unfold repr_byte. pose proof (Byte.to_N_bounded b) as Bb.
+  destruct (Byte.eqb b q || Byte.eqb b x5c) eqn:E1.
+  { apply orb_true_iff in E1 as [E1|E1]; apply Byte.byte_dec_bl in E1; subst b;
+      [destruct Hq as [-> | ->] |]; reflexivity. }
+  apply orb_false_iff in E1 as [E1 E2].
+  destruct (N.eqb_spec (Byte.to_N b) 9). { apply byte_eq_of_N in e. subst b. reflexivity. }
+  destruct (N.eqb_spec (Byte.to_N b) 10). { apply byte_eq_of_N in e. subst b. reflexivity. }
+  destruct (N.eqb_spec (Byte.to_N b) 13). { apply byte_eq_of_N in e. subst b. reflexivity. }
+  destruct ((Byte.to_N b <? 32) || (Byte.to_N b =? 127))%N eqn:E3.
+  { cbn [List.app unescape]. change (Byte.eqb x5c x5c) with true. cbv iota.
+    change (Byte.eqb x78 x5c || Byte.eqb x78 x27 || Byte.eqb x78 x22) with false.
+    change (Byte.eqb x78 x6e) with false. change (Byte.eqb x78 x72) with false.
+    change (Byte.eqb x78 x74) with false. change (Byte.eqb x78 x78) with true. cbv iota.
+    rewrite !hexv_hexd by (try apply N.mod_lt; lia).
+    replace (Byte.to_N b / 16 * 16 + Byte.to_N b mod 16)%N with (Byte.to_N b) by lia.
+    rewrite byte_of_N_to_N. reflexivity. }
+  cbn [List.app]. apply unescape_plain. intros ->. vm_compute in E2. discriminate.
+Qed.
+
+Lemma unescape_repr q s : (q = x27 \/ q = x22) -> unescape (flat_map (repr_byte q) s) = COk s.
+Proof.
+  intros Hq. induction s; [reflexivity |]. cbn [flat_map].
+  rewrite unescape_repr_byte by assumption. rewrite IHs. reflexivity.
+Qed.
+
+Lemma repr_byte_no_nl q b : (q = x27 \/ q = x22) -> Forall not_nl (repr_byte q b).
+Proof.
+  intros Hq. unfold repr_byte.
+  destruct (Byte.eqb b q || Byte.eqb b x5c) eqn:E1.
+  { constructor; [discriminate |]. constructor; [| constructor].
+    apply orb_true_iff in E1 as [E1|E1]; apply Byte.byte_dec_bl in E1; subst b;
+      [destruct Hq as [-> | ->] |]; discriminate. }
+  destruct (N.eqb_spec (Byte.to_N b) 9). { repeat constructor; discriminate. }
+  destruct (N.eqb_spec (Byte.to_N b) 10). { repeat constructor; discriminate. }
+  destruct (N.eqb_spec (Byte.to_N b) 13). { repeat constructor; discriminate. }
+  destruct ((Byte.to_N b <? 32) || (Byte.to_N b =? 127))%N eqn:E3.
+  { pose proof (Byte.to_N_bounded b).
+    repeat constructor; try discriminate; apply hexd_not_special; try apply N.mod_lt; lia. }
+  constructor; [| constructor]. intros ->. apply n0. reflexivity.
+Qed.
+
+Lemma repr_quote_cases s : repr_quote s = x27 \/ repr_quote s = x22.
+Proof. unfold repr_quote. destruct (_ && _); auto. Qed.
+
+Lemma tok_string s rest : all_ascii s = true ->
+  genops1 (x53 :: (py_repr s ++ [nl]) ++ rest) = COk (("STRING"%string, GText s), rest).
+Proof.
+  intros A. unfold py_repr. pose proof (repr_quote_cases s) as Hq. set (q := repr_quote s) in *. clearbody q.
+  rewrite <- app_assoc. change ([nl] ++ rest) with (nl :: rest).
+  erewrite genops1_unfold by (vm_compute; reflexivity).
+  cbn -[read_line unescape]. rewrite app_comm_cons.
+  rewrite read_line_app.
+  2:{ constructor; [destruct Hq as [-> | ->]; discriminate |]. apply Forall_app. split.
+      - clear A. induction s; simpl; [constructor |]. apply Forall_app. split; [apply repr_byte_no_nl; assumption | assumption].
+      - constructor; [destruct Hq as [-> | ->]; discriminate | constructor]. }
+  cbn [cbind fst snd].
+  replace (Byte.eqb q x22 || Byte.eqb q x27) with true by (destruct Hq as [-> | ->]; reflexivity).
+  rewrite rev_app_distr. cbn [List.rev List.app]. rewrite byte_eqb_refl, rev_involutive.
+  unfold escape_ascii. rewrite unescape_repr by assumption. cbn [cbind]. rewrite A. reflexivity.
+Qed.
+
+Lemma string_back c s bs : find_class "String" = Some c ->
+  encode c (PStr s) = COk bs -> reads_back c (PStr s) bs.
+Proof.
+  intros H E. open_class H. cbn -[py_repr all_ascii] in E.
+  destruct (all_ascii s) eqn:A; cbn -[py_repr] in E; [| discriminate]. apply COk_inj in E; subst bs.
+  exists (GText s). split; [| cbn; apply bytes_eqb_refl].
+  apply genops1_nil_rest. rewrite <- app_comm_cons, tok_string by assumption. reflexivity.
+Qed.
+
+(* --- LONG1 / LONG4: encode_long is undone by decode_long --- *)
+Lemma long_nbytes_fits z : z <> 0 ->
+  0 < long_nbytes z /\ - 2 ^ (8 * long_nbytes z - 1) <= z < 2 ^ (8 * long_nbytes z - 1).
+Proof.
+  intros Hz. unfold long_nbytes, bit_length. rewrite (proj2 (Z.eqb_neq z 0) Hz).
+  set (k := Z.log2 (Z.abs z) + 1).
+  assert (A : 0 < Z.abs z) by lia.
+  pose proof (Z.log2_spec _ A) as [L1 L2]. pose proof (Z.log2_nonneg (Z.abs z)) as L0.
+  assert (Hk : Z.abs z < 2 ^ k) by (unfold k; rewrite <- Z.add_1_r in L2; exact L2).
+  set (n0 := k / 8 + 1).
+  assert (Hn0 : k <= 8 * n0 - 1) by (unfold n0; lia).
+  assert (P : 2 ^ k <= 2 ^ (8 * n0 - 1)) by (apply Z.pow_le_mono_r; lia).
+  unfold k in *. lia.
+Qed.
+
+Lemma decode_encode_long z : decode_long (encode_long z) = z.
+Proof.
+  unfold encode_long. destruct (Z.eqb_spec z 0); [subst; reflexivity |].
+  destruct (long_nbytes_fits z n) as [Hp Hr].
+  pose proof (decode_long_signed (Z.to_nat (long_nbytes z)) z) as D.
+  rewrite Z2Nat.id in D by lia. apply D; [lia | assumption].
+Qed.
+
+Lemma tok_long1 pre body rest : List.length pre = 1%nat -> le_N pre = N.of_nat (List.length body) ->
+  (N.of_nat (List.length body) <= maxsize)%N ->
+  genops1 (x8a :: pre ++ body ++ rest) = COk (("LONG1"%string, GInt (decode_long body)), rest).
+Proof. counted 1%nat false (fun d => GInt (decode_long d)). Qed.
+Lemma tok_long4 pre body rest : List.length pre = 4%nat -> le_N pre = N.of_nat (List.length body) ->
+  (N.of_nat (List.length body) < 2 ^ 31)%N ->
+  genops1 (x8b :: pre ++ body ++ rest) = COk (("LONG4"%string, GInt (decode_long body)), rest).
+Proof.
+  intros; eapply tok_counted with (w := 4%nat) (sg := true) (mk := fun d => GInt (decode_long d));
+  [ vm_compute; reflexivity | reflexivity | reflexivity | intros; reflexivity
+  | assumption | assumption | intros _; assumption | unfold maxsize; lia ].
+Qed.
+
+Lemma long1_back c z bs : find_class "Long1" = Some c ->
+  encode c (PInt z) = COk bs -> reads_back c (PInt z) bs.
+Proof.
+  intros H E. open_class H. cbn -[le_bytes encode_long] in E.
+  match type of E with context[if ?b then COk (le_bytes _ _) else _] => destruct b eqn:R end;
+    cbn -[le_bytes encode_long] in E; [| discriminate].
+  apply COk_inj in E; subst bs. andb_split R.
+  exists (GInt z). split; [| cbn; apply Z.eqb_refl].
+  apply genops1_nil_rest. rewrite <- app_comm_cons, <- app_assoc. rewrite tok_long1.
+  - rewrite decode_encode_long. reflexivity.
+  - apply le_bytes_length.
+  - rewrite le_N_le_bytes_small, blen_N; [reflexivity | rewrite blen_N; unfold blen in *; cbn; lia].
+  - unfold maxsize, blen in *; lia.
+Qed.
+
+Lemma long4_back c z bs : find_class "Long4" = Some c ->
+  encode c (PInt z) = COk bs -> reads_back c (PInt z) bs.
+Proof.
+  intros H E. open_class H. cbn -[le_bytes encode_long Z.pow Z.modulo] in E.
+  match type of E with context[if ?b then COk (le_bytes _ _) else _] => destruct b eqn:R end;
+    cbn -[le_bytes encode_long Z.pow Z.modulo] in E; [| discriminate].
+  apply COk_inj in E; subst bs. andb_split R. pose proof (blen_nonneg (encode_long z)) as B0.
+  exists (GInt z). split; [| cbn; apply Z.eqb_refl].
+  apply genops1_nil_rest. rewrite <- app_comm_cons, <- app_assoc. rewrite tok_long4.
+  - rewrite decode_encode_long. reflexivity.
+  - apply le_bytes_length.
+  - rewrite Z.mod_small by (cbn in *; lia).
+    rewrite le_N_le_bytes_small, blen_N; [reflexivity | rewrite blen_N; unfold blen in *; cbn in *; lia].
+  - unfold blen in *. cbn in *. lia.
+Qed.
+
+(* --- SHORT_BINSTRING / BINSTRING: the Latin-1 bytes --- *)
+Lemma tok_s1 pre body rest : List.length pre = 1%nat -> le_N pre = N.of_nat (List.length body) ->
+  (N.of_nat (List.length body) <= maxsize)%N ->
+  genops1 (x55 :: pre ++ body ++ rest) = COk (("SHORT_BINSTRING"%string, GText (latin1_to_utf8 body)), rest).
+Proof. counted 1%nat false (fun d => GText (latin1_to_utf8 d)). Qed.
+Lemma tok_s4 pre body rest : List.length pre = 4%nat -> le_N pre = N.of_nat (List.length body) ->
+  (N.of_nat (List.length body) < 2 ^ 31)%N ->
+  genops1 (x54 :: pre ++ body ++ rest) = COk (("BINSTRING"%string, GText (latin1_to_utf8 body)), rest).
+Proof.
+  intros; eapply tok_counted with (w := 4%nat) (sg := true) (mk := fun d => GText (latin1_to_utf8 d));
+  [ vm_compute; reflexivity | reflexivity | reflexivity | intros; reflexivity
+  | assumption | assumption | intros _; assumption | unfold maxsize; lia ].
+Qed.
+
+Lemma shortbinstring_back c s bs : find_class "ShortBinString" = Some c ->
+  encode c (PStr s) = COk bs -> reads_back c (PStr s) bs.
+Proof.
+  intros H E. open_class H. cbn -[le_bytes latin1_of_utf8] in E.
+  destruct (latin1_of_utf8 s) as [l|] eqn:L; cbn -[le_bytes] in E; [| discriminate].
+  unfold in_range in E; cbn [c_min c_max] in E.
+  match type of E with context[negb ?b] => destruct b eqn:R end; cbn -[le_bytes] in E; [| discriminate].
+  match type of E with context[if ?b then COk (le_bytes _ _) else _] => destruct b eqn:R2 end;
+    cbn -[le_bytes] in E; [| discriminate].
+  apply COk_inj in E; subst bs. andb_split R. apply latin1_roundtrip in L as [L1 L2].
+  exists (GText s). split; [| cbn; apply bytes_eqb_refl].
+  apply genops1_nil_rest. rewrite <- app_comm_cons, <- app_assoc. rewrite tok_s1.
+  - rewrite L1. reflexivity.
+  - apply le_bytes_length.
+  - rewrite le_N_le_bytes_small, blen_N; [reflexivity | rewrite blen_N; unfold blen in *; cbn; lia].
+  - unfold maxsize, blen in *; lia.
+Qed.
+
+(* BINSTRING's count is read as a SIGNED four-byte integer; fickling writes it unsigned *)
+Lemma binstring_back c s bs : find_class "BinString" = Some c -> blen s < 2 ^ 31 ->
+  encode c (PStr s) = COk bs -> reads_back c (PStr s) bs.
+Proof.
+  intros H Hs E. open_class H. cbn -[le_bytes latin1_of_utf8] in E.
+  destruct (latin1_of_utf8 s) as [l|] eqn:L; cbn -[le_bytes] in E; [| discriminate].
+  unfold in_range in E; cbn [c_min c_max] in E.
+  match type of E with context[negb ?b] => destruct b eqn:R end; cbn -[le_bytes] in E; [| discriminate].
+  match type of E with context[if ?b then COk (le_bytes _ _) else _] => destruct b eqn:R2 end;
+    cbn -[le_bytes] in E; [| discriminate].
+  apply COk_inj in E; subst bs. andb_split R. apply latin1_roundtrip in L as [L1 L2].
+  exists (GText s). split; [| cbn; apply bytes_eqb_refl].
+  apply genops1_nil_rest. rewrite <- app_comm_cons, <- app_assoc. rewrite tok_s4.
+  - rewrite L1. reflexivity.
+  - apply le_bytes_length.
+  - rewrite le_N_le_bytes_small, blen_N; [reflexivity | rewrite blen_N; unfold blen in *; cbn; lia].
+  - unfold blen in *. cbn in *. lia.
+Qed.
+
+(* --- executable read-back test (used for witnesses and non-vacuity) --- *)
 Definition reads_backb (n : string) (a : pv) : bool :=
   match find_class n with
   | None => false
@@ -993,37 +1380,40 @@ Definition reads_backb (n : string) (a : pv) : bool :=
 
 (* every Opcode subclass of the live module falls in exactly one of these groups *)
 Definition sound_names : list string :=
-  ["Proto"; "Put"; "Get"; "ShortBinUnicode"; "BinUnicode"; "BinUnicode8"; "Unicode"; "BinInt1"; "BinInt2"; "BinInt";
-   "BinFloat"; "ShortBinBytes"; "BinBytes"; "BinBytes8"; "Int"; "Long"]%string.
-Definition unsound_names : list string := ["String"; "ShortBinString"; "BinString"; "Long1"; "Long4"]%string.
+  ["Proto"; "Put"; "Get"; "ShortBinUnicode"; "BinUnicode"; "BinUnicode8"; "Unicode"; "String"; "BinInt1"; "BinInt2";
+   "BinInt"; "BinFloat"; "ShortBinBytes"; "ShortBinString"; "BinString"; "BinBytes"; "BinBytes8"; "Long1"; "Long4";
+   "Int"; "Long"]%string.
 Definition differential_only_names : list string := ["Global"]%string.
 
 Definition classify (c : cclass) : string :=
   if plain_noarg c then "noarg"
   else if no_encoder c then "refuses"
   else if mem_str (c_cls c) sound_names then "sound"
-  else if mem_str (c_cls c) unsound_names then "unsound"
   else if mem_str (c_cls c) differential_only_names then "differential"
   else "unclassified"%string.
 
 Lemma all_classified : forallb (fun c => negb (String.eqb (classify c) "unclassified")) opcode_classes = true.
 Proof. vm_compute. reflexivity. Qed.
 
-(* the argument has the type the opcode carries (and, for UNICODE, needs no escaping) *)
+(* the argument has the type the opcode carries *)
 Definition type_appropriate (n : string) (a : pv) : Prop :=
-  (In n ["BinInt1"; "BinInt2"; "BinInt"; "Int"; "Long"; "Put"; "Get"; "Proto"]%string /\ exists z, a = PInt z)
+  (In n ["BinInt1"; "BinInt2"; "BinInt"; "Int"; "Long"; "Put"; "Get"; "Proto"; "Long1"; "Long4"]%string
+   /\ exists z, a = PInt z)
   \/ (n = "Get"%string /\ exists z, a = PBytes (dec_bytes z ++ [nl]))
   \/ (In n ["ShortBinUnicode"; "BinUnicode"; "BinUnicode8"]%string
       /\ exists s, (a = PStr s \/ a = PBytes s) /\ blen s <= ssize_max)
   \/ (In n ["ShortBinBytes"; "BinBytes"; "BinBytes8"]%string /\ exists s, a = PBytes s /\ blen s <= ssize_max)
   \/ (n = "BinFloat"%string /\ exists x, a = PFloat x /\ (x < 2 ^ 64)%N)
-  \/ (n = "Unicode"%string /\ exists s, a = PBytes s /\ forallb safe_byte s = true).
+  \/ (n = "Unicode"%string /\ exists s, a = PBytes s \/ a = PStr s)
+  \/ (In n ["String"; "ShortBinString"]%string /\ exists s, a = PStr s)
+  \/ (n = "BinString"%string /\ exists s, a = PStr s /\ blen s < 2 ^ 31).
 
 Theorem opcode_decodes_back n c a bs :
   find_class n = Some c -> type_appropriate n a -> encode c a = COk bs -> reads_back c a bs.
 Proof.
-  intros H T E. destruct T as [[Hn [z ->]]|[[-> [z ->]]|[[Hn [s [Ha Hs]]]|[[Hn [s [-> Hs]]]|[[-> [x [-> Hx]]]|[-> [s [-> Hs]]]]]]]].
-  - simpl in Hn. destruct Hn as [<-|[<-|[<-|[<-|[<-|[<-|[<-|[<-|[]]]]]]]]].
+  intros H T E.
+  destruct T as [[Hn [z ->]]|[[-> [z ->]]|[[Hn [s [Ha Hs]]]|[[Hn [s [-> Hs]]]|[[-> [x [-> Hx]]]|[[-> [s Ha]]|[[Hn [s ->]]|[-> [s [-> Hs]]]]]]]]]].
+  - simpl in Hn. destruct Hn as [<-|[<-|[<-|[<-|[<-|[<-|[<-|[<-|[<-|[<-|[]]]]]]]]]]].
     + eapply binint1_back; eauto.
     + eapply binint2_back; eauto.
     + eapply binint_back; eauto.
@@ -1032,11 +1422,17 @@ Proof.
     + eapply (decimal_back "Put"); simpl; eauto 6.
     + eapply (decimal_back "Get"); simpl; eauto 6.
     + eapply proto_back; eauto.
+    + eapply long1_back; eauto.
+    + eapply long4_back; eauto.
   - eapply get_create_back; eauto.
   - eapply text_back; eauto.
   - eapply bytes_back; eauto.
   - eapply float_back; eauto.
-  - eapply unicode_safe_back; eauto.
+  - eapply unicode_back; eauto.
+  - simpl in Hn. destruct Hn as [<-|[<-|[]]].
+    + eapply string_back; eauto.
+    + eapply shortbinstring_back; eauto.
+  - eapply binstring_back; eauto.
 Qed.
 
 Lemma long_never_chosen z c a :
